@@ -19,7 +19,11 @@ MANIFEST = {
                   "File.Encode = File.EncodeSW (init, sidx, segments, fragments, mfra; segment and box-tree mode) given leaves that encode "
                   "identically through their two methods (C03_encode_agree, C03_box_encode_agree; the pinned EncodeSW without mfra is refuted); "
                   "the DecodeFile and DecodeFileSR loops build the same File (grouping and StartPos) for every list of top-level box shapes "
-                  "under the options both support (C03_file_agree); every canonical byte string - compact headers OR the 16-byte largesize "
+                  "under the options both support (C03_file_agree), and with the per-moof SECOND SENC PASS inside both loops, each transcribed from its own Go text "
+                  "(C03_file_agree_senc over boxes that carry the moov's tracks - tkhd id, clear / encrypted entry, tenc IV size - and the moof's trafs - "
+                  "tfhd id, saio, sbgp / sgpd, senc-like children: the same File AND the same state of the picked senc of every traf of every moof; "
+                  "C03_senc_pass_agree: the pass visits EVERY traf, each judged on its own, and fails exactly at the first failing one; "
+                  "C03_senc_pass_break_differs: a `break` for `continue` on one path falsifies it); every canonical byte string - compact headers OR the 16-byte largesize "
                   "header that MdatBox.Encode keeps (CLarge), any nesting of container kinds - is accepted by DecodeBox and DecodeBoxSR with "
                   "the same tree, i.e. the same Size() of every box and the same start position of everything after it "
                   "(C03_decode_agree_canonical, C03_std_canon_large), and a canonical file yields the same box sequence from both "
@@ -429,6 +433,8 @@ def run(ctx):
         "initsegment.go Encode(SW), the DecodeFile / DecodeFileSR loops) is a hand transcription; the assembly steps are C04AsmModel.v",
         "model: coq/c03/C03LeafModel.v (trun.go DecodeTrun/DecodeTrunSR, senc.go DecodeSenc/DecodeSencSR, mdat.go DecodeMdat/DecodeMdatSR, "
         "stsd.go DecodeStsd/DecodeStsdSR, visualsampleentry.go DecodeVisualSampleEntry/...SR) is a hand transcription, one Gallina function per Go function",
+        "model: coq/c03/C03SencPassModel.v (the case \"moof\" of the DecodeFile and of the DecodeFileSR loop, one Gallina function per Go text; the callees "
+        "ContainsSencBox / IsEncrypted / GetSinf / ParseReadSenc / ParseReadBox are coq/c04/C04XrefModel.v + C04AllocModel.v, imported read-only)",
         "hook: /repo/mp4/verif_c03.go VerifDecoderKeys (add-only, build tag verif); coq/c03/C03Registry.v generated from it",
         "source facts: harness/c03/srcfacts.go classifies every registered decoder pair and every Encode/EncodeSW pair from the sources "
         "(coq/c03/C03Facts.v generated from it on every run); the classes it accepts are syntactic shapes, the step from `only listed reader "
@@ -449,7 +455,7 @@ def run(ctx):
     rc, cases, e = harness(exe, ["corr", "-seed", ctx.seed, "-n", n, "-exh", exh], 3000)
     if rc != 0:
         raise common.CheckError("harness corr failed rc=%s: %s" % (rc, e[-1000:]))
-    lines = [l for l in cases.splitlines() if l[:2] in ("D\t", "E\t", "B\t", "L\t", "T\t", "V\t", "M\t", "P\t")]
+    lines = [l for l in cases.splitlines() if l[:2] in ("D\t", "E\t", "B\t", "L\t", "T\t", "V\t", "M\t", "P\t", "Y\t")]
     res = common.run_model(model, "\n".join(lines) + "\n")
     mism = [l for l in res if not l.startswith("OK ")]
     distinct = len(set(l.split("\t", 2)[2] for l in lines))
@@ -457,7 +463,7 @@ def run(ctx):
     ctx.cov["distinct_nontrivial"] += distinct
     ctx.notes["correspondence"] = {
         "cases": len(lines), "mismatches": len(mism), "distinct_cases": distinct,
-        "kinds": {k: sum(1 for l in lines if l.startswith(k + "\t")) for k in ("D", "E", "B", "L", "T", "V", "M", "P")},
+        "kinds": {k: sum(1 for l in lines if l.startswith(k + "\t")) for k in ("D", "E", "B", "L", "T", "V", "M", "P", "Y")},
         "input_distribution": "D: all shape lists up to length %d over the 32-letter alphabet (C04's 29 + mdat(0/4) and an unknown box behind a 16-byte "
                               "header) + %d random longer lists, through DecodeFile and "
                               "DecodeFileSR with flags none / start-on-moof: outcome class, grouping, StartPos; E: the same lists (length >= 2) and 6 small "
@@ -473,7 +479,13 @@ def run(ctx):
                               "lengths 0/4/31/32/255, 0..2 children incl. lying children, boxes shorter than the 78 fixed bytes); M: every V input that decodes "
                               "to an stsd / sample entry and 8 mdat boxes: model encoders vs Encode/EncodeSW bytes; P: mfhd, tfdt (v0/v1), tfhd (all 32 "
                               "combinations of the optional-field flags) with the same variants: fields, Size, consumed, AccError of both decoders vs "
-                              "the reader programs" % (exh, n, n, n, n),
+                              "the reader programs; Y: synthesized files [ftyp moov{traks clear / encrypted with tenc IV 0/8/16 / without tenc / without tkhd / "
+                              "without entry}] [free] (moof{1..4 trafs} mdat){1,2}, every traf with a track id or no tfhd and no senc / zero-sample senc / "
+                              "unparsed senc that parses (8- or 16-byte IVs, sub-samples) / that does not / PIFF senc / saio matching, mismatching, empty / "
+                              "seig sample group: every ordered pair of the 12 traf kinds, clear-encrypted-zero-sample triples in every order under 8 trak "
+                              "sets, two moofs, + %d random; through DecodeFile and DecodeFileSR with flags none / start-on-moof vs decode_file_xr / "
+                              "decode_file_xsr: outcome class, grouping, StartPos, and per traf (unparsed, len(IVs), len(SubSamples)) of the picked senc"
+                              % (exh, n, n, n, n, n // 4),
     }
     ctx.cov["samples"] += [l[:300] for l in lines[:2]] + [l[:300] for l in lines[len(lines) // 2:len(lines) // 2 + 2]]
     ctx.log("correspondence: %d cases, %d mismatches" % (len(lines), len(mism)))
